@@ -300,6 +300,8 @@ struct Sim
   char notes[2048];
   size_t notes_len;
   int64_t lowest_prio;
+  bool tso;                 // x86-TSO store buffering for this run
+  uint64_t tso_stores, tso_delays;
   Vec<uint32_t> switch_log;  // triples: step, from, to (first 200 switches)
 };
 
@@ -344,6 +346,17 @@ void hb_atomic(Thread *me, uintptr_t addr, int mo, int kind);  // kind: 0 load 1
 void hb_fence(Thread *me, int mo);
 void hb_auto_watch(uintptr_t base, size_t n, int tag);
 bool hb_any_watch();
+
+// tso.cpp
+void tso_reset();
+void tso_capture(Thread *me);
+void tso_apply_view(Thread *me, uintptr_t a, size_t n);
+void tso_store_hook(Thread *me, uintptr_t a, size_t n);
+void tso_unbuffered_store(Thread *me, uintptr_t a, size_t n, bool shared_memory);
+void tso_atomic_store(Thread *me, uintptr_t a, size_t n, const void *val, bool seq_cst);
+void tso_rmw_done(Thread *me, uintptr_t a, size_t n);
+void tso_flush_all(Thread *t);
+void tso_background();
 
 // image.cpp
 void image_snapshot();
